@@ -39,6 +39,7 @@ var props = []PropSpec{
 		Harnesses: []HarnessSpec{
 			{Func: "Check_WellFormed", Reach: []string{"template-sent", "data-sent"},
 				Bounds: "templates of 1..2 (quick) / 1..3 (thorough) elements over 22 kinds (IANA, reverse 29305, Antrea 56506, user enterprise 7), all ordered combinations; 1..2 / 1..3 records; variable-length values of {0,255} / {0,1,254,255,256} bytes; every value bit, template id (>=256), observation domain and sequence state symbolic"},
+			{Func: "Check_LargeMessage", Reach: []string{"sent", "not-sent"}, Bounds: "every message size 65510..65545 (one variable-length octet array of symbolic content)"},
 			{Func: "Check_RegistrySweep", Reach: []string{"swept", "absent", "unsupported-type"},
 				Bounds: "every element id 0..520 of enterprises {0, 29305, 56506, 7} as a one-field template, symbolic value, variable lengths {0,3,255}"},
 		},
@@ -47,8 +48,8 @@ var props = []PropSpec{
 		ID: "C08", Pkg: "./c08", ReplayPkg: "./cmd/rc08", Level: "model_checking",
 		Assumptions: append([]string{"inductive step: the counter pre-state is an arbitrary 32-bit value installed with the VerifSetSeq hook, so sessions of any length (including across the 2^32 wrap) reduce to the steps explored", "time.Now is a symbolic non-decreasing wall clock; the export time must lie between a reading taken before and one taken after SendSet", "failed sends are outside the statement (as the property says)"}, codecAssumptions...),
 		Harnesses: []HarnessSpec{
-			{Func: "Check_SeqStep", Reach: []string{"data", "template", "near-wrap"}, Tune: func(c *sym.Config, th bool) { c.ClockMode = "wall" },
-				Bounds: "1..2 (quick) / 1..3 (thorough) successive sends after a template, each template or data with 1..3 records; counter, observation domain, values and clock symbolic"},
+			{Func: "Check_SeqStep", Reach: []string{"data", "template", "near-wrap", "empty-set"}, Tune: func(c *sym.Config, th bool) { c.ClockMode = "wall" },
+				Bounds: "1..2 (quick) / 1..3 (thorough) successive sends after a template, each a template set (with one or zero records) or a data set with 0..3 records; counter, observation domain, values and clock symbolic"},
 		},
 	},
 	{
